@@ -1,14 +1,23 @@
-"""Find an inconsistent axiom subset via z3 unsat cores (the vacuity guard says `unsat`)."""
-import sys; sys.path.insert(0, '/verif')
+"""Vacuity guard for the theories: try hard to derive False from every axiom set a contract uses
+(several seeds, long timeout).  `unsat` = inconsistent axioms = checker defect."""
+import sys, time, itertools
+sys.path.insert(0, '/verif')
 from pyvc.load import load_all; load_all()
-from pyvc import logic as L
+from pyvc import logic as L, registry as R
 import z3
-axs = L.axioms_of(set(L.all_theories())) + L.distinctness_axioms()
-s = z3.Solver(); s.set("timeout", 20000); s.set(unsat_core=True)
-for k, (n, a) in enumerate(axs):
-    s.assert_and_track(a, z3.Bool("ax_%d" % k))
-r = s.check()
-print("all:", r, len(axs))
-if r == z3.unsat:
-    core = [int(str(c)[3:]) for c in s.unsat_core()]
-    print("unsat core:", [axs[k][0] for k in core])
+T = int(sys.argv[1]) if len(sys.argv) > 1 else 60
+combos = sorted({tuple(sorted(set(c.theories) | {"core"})) for c in R.CONTRACTS.values()}) + [tuple(L.all_theories())]
+bad = 0
+for combo in combos:
+    axs = L.axioms_of(set(combo)) + L.distinctness_axioms()
+    for seed in (0, 1, 2):
+        s = z3.Solver(); s.set("timeout", T * 1000); s.set("random_seed", seed); s.set(unsat_core=True)
+        for k, (n, a) in enumerate(axs):
+            s.assert_and_track(a, z3.Bool("ax_%d" % k))
+        t = time.time(); r = s.check()
+        print(combo, "seed", seed, r, round(time.time() - t, 1), flush=True)
+        if r == z3.unsat:
+            bad += 1
+            print("  UNSAT CORE:", [axs[int(str(c)[3:])][0] for c in s.unsat_core()], flush=True)
+            break
+sys.exit(3 if bad else 0)
